@@ -84,6 +84,20 @@ def run(ctx):
             tau = dict(zip(terms, a))
             matching = {p for p, tp in cover.items() if tp is not None and tau[tp]}
             other = set(cover) - matching
+            # the documented way from names (as Elasticsearch reports them) to the two path sets
+            inv = {tuple(v): k for k, v in name_to_path.items()}
+            names_hit = [inv[p] for p in sorted(matching)]
+            try:
+                m2, o2_ = I.naming.matching_from_names(names_hit, name_to_path)
+                if {tuple(x) for x in m2} != set(matching) or {tuple(x) for x in o2_} != set(other):
+                    ctx.fail("matching_from_names does not give (paths of the reported names, paths of the others)",
+                             {"tree": named, "names": names_hit})
+                for nm in names_hit[:3]:
+                    el = I.naming.element_from_name(o, nm, name_to_path)
+                    if el is not I.naming.element_from_path(o, name_to_path[nm]):
+                        ctx.fail("element_from_name differs from element_from_path(mapping[name])", {"tree": named, "name": nm})
+            except Exception as e:
+                ctx.fail("matching_from_names / element_from_name raised %s: %s" % (type(e).__name__, e), {"tree": named})
             for default_or in (True, False):
                 mp = I.naming.MatchingPropagator(T.OrOperation if default_or else T.AndOperation)
                 ok, ko = mp(o, matching, other)
